@@ -231,7 +231,8 @@ def apply_perturbation(fsdir: str, ckdir_rel: str, pert: dict, ctx: dict) -> dic
     elif kind == "config_trunc":
         cfgp = os.path.join(d, "config.yaml")
         mode = pert.get("mode", "empty")
-        if mode == "empty":
+        if mode == "empty" and ctx.get("config_gate"):
+            # the kill fell between open('w') (which truncates / creates) and the write
             open(cfgp, "w").close()
             done["applied"] = 1
         # mode == "old": keep whatever the snapshot had (taken before the truncating open)
@@ -249,11 +250,20 @@ class Run:
         self.hist = {"lifetimes": []}  # JSON-able
         self.rec = {}  # (dir_rel, step) -> list of captured states (one per save call)
         self.committed = {}  # dir_rel -> set of committed steps (model, from gates)
+        self.commit_state = {}  # (dir_rel, step) -> captured state of the save that was committed
         self.damaged = {}  # dir_rel -> set of steps whose deletion had begun at a crash
         self.sweeps = {}  # lifetime idx -> list of (iteration, arrays dict)
         self.boots = []  # per lifetime: dict(raw restored state etc.)
         self.finals = []  # per lifetime: captured state at end (or None if crashed)
         self.solvers = []
+        self.commit_state_at_boot = {}
+        self.commit_state_at_end = {}
+        self.end_contents = {}
+        self.boot_cfgs = {}
+        self.dir_cfg = {}  # dir_rel -> plain config last written to that directory's config.yaml
+        self.src_cfg_at_boot = {}
+        self.solvers_attrs = {}
+        self.fsdir = None
         self.stats = {}
         self.error = None
 
@@ -279,6 +289,8 @@ class LifetimeCtx:
         self.sweep_raw = []
         self.call_idx = -1
         self.sweeps_in_call = 0
+        self.pending_state = {}
+        self.config_gate = False
 
     # ---- writer policy ---------------------------------------------------------
     def _policy_target(self) -> str:
@@ -309,12 +321,17 @@ class LifetimeCtx:
         got = SIM.advance(self.inflight, tgt)
         self._after_advance(got)
 
+    def mark_committed(self, step):
+        self.run.committed.setdefault(self.dir_rel, set()).add(step)
+        if step in self.pending_state:
+            self.run.commit_state[(self.dir_rel, step)] = self.pending_state[step]
+
     def _after_advance(self, got):
         s = self.inflight
         if s is None:
             return
         if got in ("W3", "W4"):
-            self.run.committed.setdefault(self.dir_rel, set()).add(s)
+            self.mark_committed(s)
         if got == "W3":
             exp = sorted(int(g.split(":")[1]) for g in SIM.parked if g.startswith("delete:"))
             self.expiring = exp[0] if exp else None
@@ -323,7 +340,7 @@ class LifetimeCtx:
 
     def _writer_finished(self):
         s = self.inflight
-        self.run.committed.setdefault(self.dir_rel, set()).add(s)
+        self.mark_committed(s)
         # steps whose deletion was performed are gone
         cset = self.run.committed[self.dir_rel]
         on_disk = set(steps_in(os.path.join(self.fsdir, self.dir_rel)))
@@ -369,6 +386,8 @@ class LifetimeCtx:
         shutil.copytree(self.fsdir, self.snapdir, symlinks=True)
         self.snap_taken = True
         self.snap_committed = {k: set(v) for k, v in self.run.committed.items()}
+        self.snap_commit_state = dict(self.run.commit_state)
+        self.snap_dir_cfg = dict(self.run.dir_cfg)
         self.snap_expiring = self.expiring
 
     def on_gate(self, name: str):
@@ -378,7 +397,7 @@ class LifetimeCtx:
         kind, _, arg = name.partition(":")
         if kind == "delete" and not self.asyn and self._cur_save is not None:
             # synchronous save: deletion of expired steps begins only after the step rename
-            self.run.committed.setdefault(self.dir_rel, set()).add(self._cur_save)
+            self.mark_committed(self._cur_save)
         if not c or self.snap_taken:
             return
         seam = c["seam"]
@@ -390,6 +409,7 @@ class LifetimeCtx:
                 self.take_snapshot()
                 self.h["events"].append(["snapshot_at_gate", kind, int(arg)])
         elif seam[0] == "construct" and kind == "config_write":
+            self.config_gate = True
             self.take_snapshot()
             self.h["events"].append(["snapshot_at_gate", kind])
 
@@ -432,20 +452,22 @@ class LifetimeCtx:
                 SIM.entry_hold = ctx.asyn
                 SIM.open_deletes = False
             ctx._cur_save = step
+            ctx.pending_state[step] = st
             o_save(step)
             ctx._cur_save = None
             started = len(SIM.started) > n0 or SIM.entry_parked > e0
             ctx.h["saves"].append({"step": step, "started": started, "state": digest_state(st)})
             ctx.run.rec.setdefault((ctx.dir_rel, step), []).append(st)
             if started:
+                ctx.pending_state[step] = st
                 ctx.save_count += 1
                 ctx.run.stat("saves_started")
                 if ctx.asyn:
                     ctx.inflight, ctx.inflight_ticks, ctx.inflight_idx = step, 0, ctx.save_count - 1
                 else:
                     # synchronous: committed when save() returned; deletions done
+                    ctx.mark_committed(step)
                     cset = ctx.run.committed.setdefault(ctx.dir_rel, set())
-                    cset.add(step)
                     on_disk = set(steps_in(os.path.join(ctx.fsdir, ctx.dir_rel)))
                     for j in list(cset):
                         if j not in on_disk:
@@ -489,6 +511,7 @@ def execute(plan: dict, root: str) -> Run:
     run = Run(plan)
     world = plan["world"]
     fsdir = os.path.join(root, "fs")
+    run.fsdir = fsdir
     snapdir = os.path.join(root, "snap")
     os.makedirs(fsdir, exist_ok=True)
     cur_rel = "ck0"
@@ -502,6 +525,10 @@ def execute(plan: dict, root: str) -> Run:
         route = lt.get("route", "construct")
         over = dict(lt.get("over", {}))
         eff = dict(ckpt)
+        if route == "restore" and run.dir_cfg.get(cur_rel):
+            # restore() starts from what config.yaml of the source directory durably holds
+            dc = run.dir_cfg[cur_rel]
+            eff = {"f": int(dc["checkpoint_frequency"]), "m": int(dc["max_checkpoints"]), "async": bool(dc["enable_async_checkpointing"])}
         if "checkpoint_frequency" in over:
             eff["f"] = over["checkpoint_frequency"]
         if "max_checkpoints" in over:
@@ -521,6 +548,20 @@ def execute(plan: dict, root: str) -> Run:
         h.update(src=src_rel, dst=dst_rel, eff=dict(eff), pre_listing=listing(src), pre_digest=None)
         if lt.get("new_dir"):
             h["pre_digest"] = tree_digest(src)
+        cfgp = os.path.join(src, "config.yaml")
+        h["model"] = {
+            "committed": sorted(run.committed.get(src_rel, set())),
+            "damaged": sorted(run.damaged.get(src_rel, set())),
+            "config": ("absent" if not os.path.exists(cfgp) else ("empty" if os.path.getsize(cfgp) == 0 else "present")),
+            "dst_steps": steps_in(dst),
+        }
+        run.commit_state_at_boot[li] = dict(run.commit_state)
+        run.src_cfg_at_boot[li] = run.dir_cfg.get(src_rel)
+        step_arg = lt.get("step")
+        if step_arg == "explicit":
+            Cs = h["model"]["committed"]
+            step_arg = Cs[int(lt.get("pick", 0)) % len(Cs)] if Cs else None
+        h["step_resolved"] = step_arg
         SIM.reset(root, block=ctx.asyn)
         SIM.on_gate = ctx.on_gate
         ctx._cur_save = None
@@ -536,10 +577,10 @@ def execute(plan: dict, root: str) -> Run:
                     kwargs = dict(over)
                     if lt.get("new_dir"):
                         kwargs["new_checkpoint_dir"] = dst
-                    solver = cls.restore(src, step=lt.get("step"), **kwargs)
+                    solver = cls.restore(src, step=step_arg, **kwargs)
                 elif route == "load_checkpoint":
                     solver = build_solver(world, eff, dst)
-                    solver.load_checkpoint(src, step=lt.get("step"))
+                    solver.load_checkpoint(src, step=step_arg)
                 else:
                     raise HarnessError(f"unknown route {route}")
             except (SimCrash, HarnessError):
@@ -551,11 +592,28 @@ def execute(plan: dict, root: str) -> Run:
                 if route == "load_checkpoint":
                     _safe_close(solver)
                 solver = None
+                if lt.get("fallback"):
+                    # what a user does when nothing can be restored: start afresh in the same place
+                    solver = build_solver(world, eff, dst)
+                    boot["fallback"] = "construct"
             if solver is not None:
                 st0 = capture(solver)
                 boot["state"] = digest_state(st0)
                 boot["iteration"] = int(solver.iteration)
                 run.boots.append({"state": st0, "solver": solver})
+                try:
+                    import copy as _copy
+
+                    run.boot_cfgs[li] = _cfg_plain(solver.config)
+                    if getattr(solver, "has_full_config", False) and eff["f"] > 0:
+                        run.dir_cfg[dst_rel] = run.boot_cfgs[li]
+                    run.solvers_attrs[li] = {
+                        "f": int(solver.checkpoint_frequency),
+                        "m": int(solver.max_checkpoints),
+                        "async": bool(solver.enable_async_checkpointing),
+                    }
+                except AttributeError as e:
+                    raise HarnessError(f"seam missing: {e}")
                 ctx.instrument(solver)
                 if ctx.crash and ctx.crash["seam"][0] == "construct":
                     if not ctx.snap_taken:
@@ -568,14 +626,20 @@ def execute(plan: dict, root: str) -> Run:
             h["boot"] = boot
             if solver is not None:
                 for oi, op in enumerate(lt.get("ops", [])):
-                    if op["op"] == "solve":
+                    if op["op"] in ("solve", "solve_to"):
+                        it0 = int(solver.iteration)
+                        if op["op"] == "solve_to":
+                            kk = int(op["it"]) - it0
+                            if kk <= 0:
+                                continue
+                        else:
+                            kk = int(op["k"])
                         ctx.call_idx += 1
                         ctx.sweeps_in_call = 0
-                        it0 = int(solver.iteration)
-                        call = {"k": op["k"], "it0": it0}
+                        call = {"k": kk, "it0": it0}
                         h["calls"].append(call)
                         try:
-                            res = solver.solve(op["k"])
+                            res = solver.solve(kk)
                         except (SimCrash, HarnessError):
                             raise
                         except Exception as e:
@@ -585,6 +649,9 @@ def execute(plan: dict, root: str) -> Run:
                             break
                         call["it1"] = int(solver.iteration)
                         call["sweeps"] = ctx.sweeps_in_call
+                        call["conv_last"] = ctx.sweep_raw[-1][2] if ctx.sweeps_in_call else None
+                        call["thr"] = 0.5 if type(solver).__name__ == "PolicyIteration" else float(solver.conv_threshold)
+                        call["converged"] = bool(ctx.sweeps_in_call and call["conv_last"] < call["thr"])
                         call["ret"] = {
                             "values": dg(res.values),
                             "policy": dg(res.policy),
@@ -622,7 +689,7 @@ def execute(plan: dict, root: str) -> Run:
                 _safe_close(run.boots[-1]["solver"])
             SIM.reset(None)
             pert = ctx.crash.get("perturb", {"kind": "none"})
-            done = apply_perturbation(snapdir, dst_rel, pert, {"expiring": ctx.snap_expiring})
+            done = apply_perturbation(snapdir, dst_rel, pert, {"expiring": ctx.snap_expiring, "config_gate": ctx.config_gate})
             h["crash"]["perturb"] = done
             run.stat(f"perturb/{done['kind']}" + ("" if done["applied"] else "(noop)"))
             h["crash"]["post_listing"] = listing(os.path.join(snapdir, dst_rel))
@@ -630,6 +697,8 @@ def execute(plan: dict, root: str) -> Run:
             os.rename(snapdir, fsdir)
             # durable model: committed steps as of the snapshot
             run.committed = {k: set(v) for k, v in ctx.snap_committed.items()}
+            run.commit_state = dict(ctx.snap_commit_state)
+            run.dir_cfg = dict(ctx.snap_dir_cfg)
             if ctx.snap_expiring is not None and done["kind"] == "partial_delete" and done["applied"]:
                 run.committed.get(dst_rel, set()).discard(ctx.snap_expiring)
                 run.damaged.setdefault(dst_rel, set()).add(ctx.snap_expiring)
@@ -654,16 +723,94 @@ def execute(plan: dict, root: str) -> Run:
             h["end_listing"] = listing(dst)
             if src != dst:
                 h["end_src_digest"] = tree_digest(src)
+            run.commit_state_at_end[li] = dict(run.commit_state)
+            if plan.get("load_contents") and solver is not None and eff["f"] > 0:
+                run.end_contents[li] = load_contents(world, fsdir, dst_rel, root)
         h["events_gates"] = None
         run.solvers.append(solver)
-        if solver is not None and (not crashed or True):
+        if solver is not None and not (crashed and ctx.crashed and ctx.crashed["seam"][0] == "construct"):
             cur_rel = dst_rel
             ckpt = dict(eff)
         # a lifetime whose boot failed leaves the directory as it was; later lifetimes may retry
     return run
 
 
+def _cfg_plain(cfg):
+    import dataclasses
+
+    try:
+        from omegaconf import DictConfig, OmegaConf
+
+        if isinstance(cfg, DictConfig):
+            return OmegaConf.to_container(cfg, resolve=True)
+    except Exception:
+        pass
+    if dataclasses.is_dataclass(cfg):
+        return {f.name: _cfg_plain(getattr(cfg, f.name)) for f in dataclasses.fields(cfg)}
+    if hasattr(cfg, "keys"):
+        return {k: _cfg_plain(cfg[k]) for k in cfg.keys()}
+    if isinstance(cfg, (list, tuple)):
+        return [_cfg_plain(x) for x in cfg]
+    if isinstance(cfg, os.PathLike):
+        return str(cfg)
+    return cfg
+
+
+def load_contents(world, fsdir, dir_rel, root):
+    """Read every retained step of a directory (from a copy) directly through Orbax, without
+    any template - what the directory really holds, independent of mdpax's restore code."""
+    import orbax.checkpoint as ocp
+
+    out = []
+    d = os.path.join(fsdir, dir_rel)
+    cp = os.path.join(root, "contents_copy")
+    shutil.rmtree(cp, ignore_errors=True)
+    shutil.copytree(d, cp)
+    mgr = None
+    try:
+        mgr = ocp.CheckpointManager(cp)
+        for s in steps_in(cp):
+            try:
+                raw = mgr.restore(s, args=ocp.args.StandardRestore())
+                st = {}
+                for k in ("values", "policy"):
+                    st[k] = None if raw.get(k) is None else np.array(raw[k], copy=True)
+                for k, v in (raw.get("info") or {}).items():
+                    if v is None:
+                        st[k] = None
+                    elif k in SCALAR_INT:
+                        st[k] = np.array(int(v), dtype=np.int64)
+                    elif k == "gain":
+                        st[k] = np.array(float(v), dtype=np.float64)
+                    else:
+                        st[k] = np.array(v, copy=True)
+                out.append((dir_rel, s, st))
+            except Exception as e:  # unreadable step: reported by the oracle
+                out.append((dir_rel, s, f"{type(e).__name__}: {str(e)[:200]}"))
+    finally:
+        if mgr is not None:
+            try:
+                mgr.close()
+            except Exception:
+                pass
+        shutil.rmtree(cp, ignore_errors=True)
+    return out
+
+
+VOLATILE_KEYS = ("pre_digest", "end_src_digest", "msg", "tb")
+
+
+def _strip(o):
+    if isinstance(o, dict):
+        return {k: _strip(v) for k, v in o.items() if k not in VOLATILE_KEYS}
+    if isinstance(o, list):
+        return [_strip(x) for x in o]
+    return o
+
+
 def history_digest(run: Run) -> str:
+    """Digest of the observable history.  Tree digests of directories (Orbax metadata holds
+    timestamps), exception messages (absolute scratch paths) and tracebacks never enter it."""
     import json
 
-    return hashlib.sha256(json.dumps(run.hist, sort_keys=True, default=str).encode()).hexdigest()[:20]
+    return hashlib.sha256(json.dumps(_strip(run.hist), sort_keys=True, default=str).encode()).hexdigest()[:20]
